@@ -43,10 +43,16 @@ MUST_REFUTE = {
     # the node's MRO without the keyword arguments
     "C05_Gen_Buggy_FallbackDropsKw": "Transparent",
     "C05_OptGen_Buggy_FallbackDropsKw": "Explained",
+    # round 5: the rebuild branch of an identity-shaped handler forgets an optional field
+    # (TLC must find a history with equal-but-not-identical subtrees on which the
+    # memoizing algorithm differs from the same handlers without a table)
+    "C05_Gen_Buggy_RebuildDropsScope": "RebuildTransparent",
     "C05_Gen_real_types": "NotSharedTypes",        # Dev_CompositeKeyPyEq (finding F1)
     "C05_OptGen_findings": "PlainlyAccepted",      # the optimizer's named deviations
 }
-MUST_HOLD = ["C05_Gen_real", "C05_Gen_real_consts"]
+# (C05_Gen_RebuildDropsScope_shared: the same design error is NOT visible when equal subtrees
+# are always one object - the build mode is the dimension that exposes it)
+MUST_HOLD = ["C05_Gen_real", "C05_Gen_real_consts", "C05_Gen_RebuildDropsScope_shared"]
 
 
 # ------------------------------------------------------------------ stage 2: drive
@@ -155,9 +161,11 @@ def _tlaps(out, wd):
 
 
 def _model_stage(tier, seed, out):
-    gen_cfgs = {"quick": [("C05_Gen", "C05_Gen_quick", {}), ("C05_Gen", "C05_Gen_fb", {})],
+    gen_cfgs = {"quick": [("C05_Gen", "C05_Gen_quick", {}), ("C05_Gen", "C05_Gen_fb", {}),
+                          ("C05_Gen", "C05_Gen_fields", {})],
                 "thorough": [("C05_Gen", "C05_Gen_thorough", {}),
                              ("C05_Gen", "C05_Gen_fb", {}),
+                             ("C05_Gen", "C05_Gen_fields", {}),
                              ("C05_Gen", "C05_Gen_thoroughA", {}),
                              ("C05_Gen", "C05_Gen_thorough3", {}),
                              ("C05_Gen", "C05_Gen_sim",
@@ -218,7 +226,8 @@ def _memo_cases(gens):
         hists = [p for p in printed if "h" in p]
         if len(tables) != 1 or not hists:
             raise kit.MachineryError(f"{cfg}: generator printed no tables / histories")
-        if not cfg.endswith("_sim") and len(hists) != res.distinct - 1:
+        # (one initial state per build mode TLC may choose, round 5)
+        if not cfg.endswith("_sim") and len(hists) != res.distinct - tables[0].get("ninit", 1):
             raise kit.MachineryError(
                 f"{cfg}: {len(hists)} history lines for {res.distinct} states")
         t = tables[0]
